@@ -50,6 +50,23 @@ def contracts():
             'and result == calls[2][2])',
         ],
         serves=('C01',), native=False))
+    # the statement a parse returns belongs to the engine that was ASKED
+    # (its options - limits, quotas, conversion switches - govern every
+    # evaluation of it); a copy carries the merged options and shares
+    # nothing mutable with the original
+    cs.append(Contract(
+        F + 'YaqlEngine.copy', name='factory.YaqlEngine.copy',
+        params=dict(self=obj('yaql.language.factory.YaqlEngine', _lexer=TVal,
+                             _parser=TVal, _options={'a': 1, 'b': 2},
+                             _factory=TVal),
+                    options={'b': 3, 'c': 4}),
+        ensures=['result is not self',
+                 'isinstance(result, "YaqlEngine")',
+                 'result._lexer == self._lexer and result._parser == '
+                 'self._parser and result._factory == self._factory',
+                 'result._options._d == {"a": 1, "b": 3, "c": 4}',
+                 'self._options == {"a": 1, "b": 2}'],
+        serves=('C08', 'C01'), native=False))
     # yaql.eval: the parse cache is keyed by the exact text, the evaluation
     # runs in a fresh child of the shared default context
     cs.append(Contract(
